@@ -46,10 +46,14 @@ func runC03(c *Ctx) {
 	c.Rule("C03.X", "1xx interim responses do not latch / are not published as final; final statuses do latch; a final status after an interim one is still forwarded", 9)
 	ruleInterimNoLatch(c, p, "C03.X")
 	ruleInterimThenFinal(c, p, "C03.X")
-	c.Rule("C03.R", "a retried upload of the response restarts at the first byte through the refusing rewind (= C06.S)", 3)
+	c.Rule("C03.R", "a retried upload of the response restarts at the first byte through the refusing rewind and replays exactly the bytes sent before (= C06.S, C06.R, C06.B)", 3)
 	if f := c.need(p, "C03.R", "agent/utils.postResponseWithRetries"); f != nil {
 		if do := c.UniqueCall("C03.R", p, f, false, "(*net/http.Client).Do"); do != nil {
 			c06Rewind(c, p, "C03.R", f, do)
+			// … and what a retry replays is what was sent before: the rewind refuses when the
+			// retained prefix may be incomplete, the buffer retains exactly what it handed out
+			c06Refusal(c, p, "C03.R")
+			c06Retain(c, p, "C03.R")
 		}
 	}
 	c.Rule("C03.M", "response bytes live in call-owned buffers (no pooled memory on the response path)", 1)
